@@ -25,18 +25,19 @@ def _adj(t, ref, md):
     return [t]
 
 
-def _ref_tier(kind, ref):
+def _ref_tier(kind, ref, lo=0):
     if kind == "P":
-        return PT("r", [(t, "r") for t in ref], 0, 2)
+        return PT("r", [(t, "r") for t in ref], lo, lo + 2)
     # an interval tier whose boundary times are exactly ref (pairs of consecutive times)
     ivs = [(a, b, "r") for a, b in zip(ref[0::2], ref[1::2])]
-    return IT("r", ivs, 0, 2)
+    return IT("r", ivs, lo, lo + 2)
 
 
 def _check_dejitter(case):
-    kind, entries, rkind, ref, md = case
-    tier = (IT if kind == "I" else PT)("t", list(entries), 0, 2)
-    rt = _ref_tier(rkind, ref)
+    kind, entries, rkind, ref, md = case[:5]
+    lo = case[5] if len(case) > 5 else 0  # the whole scene moved far from zero (sums stay exact)
+    tier = (IT if kind == "I" else PT)("t", list(entries), lo, lo + 2)
+    rt = _ref_tier(rkind, ref, lo)
     times = sorted(set(rt.timestamps))
     before = canon(rt)
     st, r, _ = call(tier.dejitter, rt, md)
@@ -190,6 +191,17 @@ def parts(tier):
                     yield ("P", p, "P", ref, md)
             for ref in irefs[::3]:
                 yield ("P", p, "I", ref, 0.25)
+        # the same scene at 2**40 s: maxDifference is an absolute duration, whatever the magnitude of the times
+        B0 = D.BIG0
+        for s in sets[::3]:
+            e = tuple((a + B0, b + B0, l) for a, b, l in D.labelled(s, "ab"))
+            for ref in refs[::2]:
+                for md in (0.25, 0.5):
+                    yield ("I", e, "P", tuple(r + B0 for r in ref), md, B0)
+        for s in psets[::2]:
+            p = tuple((t + B0, l) for t, l in D.labelled_points(s))
+            for ref in refs[::2]:
+                yield ("P", p, "P", tuple(r + B0 for r in ref), 0.25, B0)
 
     def gen_align():
         stride = 5 if quick else 1
